@@ -21,8 +21,8 @@ import (
 const keyAlias = "C31-disk-tiers-keyed-by-needle-key-only"
 
 func TestMain(m *testing.M) {
-	vlib.Rule("C31: rapid step sequences (12-50 steps) on chunk_cache.NewTieredChunkCache(maxEntries 2-8, scratch dir, diskSizeInUnit 8-64, unitSize 64-1024): SetChunk / GetChunk(minSize) / GetChunkSlice(off,len) / Restart (Shutdown + New on the same dir) over a universe of file ids built from 3 volume ids x 4 keys x 2 cookies (ids share or differ in each component; some written in the key_delta sub-file form). Each id has a per-case fixed size drawn around {1, unit, 4*unit, 8*unit} +-1 and content that is a fixed non-zero function of (volume, key, cookie, position). Oracle: GetChunk returns nothing or exactly the stored bytes of that id with length >= minSize; GetChunkSlice returns nothing or exactly data[off:off+len]; a never-stored id returns nothing; no panic. Non-trivial = a lookup that hit after >=1 disk-volume rotation or a restart, or a lookup of an id that shares its key with another stored id. Distinct = distinct parameters + step list.")
-	vlib.Assume("C31: the bytes stored for one file id never change (chunks are immutable; both callers store the complete chunk); eviction policy itself (what is kept) is not checked, only that whatever is returned is right")
+	vlib.Rule("C31: rapid step sequences (12-50 steps) on chunk_cache.NewTieredChunkCache(maxEntries 2-8, scratch dir, diskSizeInUnit 8-64, unitSize 64-1024): SetChunk (two thirds of them from a window of a caller-owned scratch buffer that is overwritten right after SetChunk returned) / GetChunk(minSize) / GetChunkSlice(off,len) / Restart (Shutdown + New on the same dir) over a universe of file ids built from 3 volume ids x 4 keys x 2 cookies (ids share or differ in each component; some written in the key_delta sub-file form). Each id has a per-case fixed size drawn around {1, unit, 4*unit, 8*unit} +-1 and content that is a fixed non-zero function of (volume, key, cookie, position). Oracle: GetChunk returns nothing or exactly the stored bytes of that id with length >= minSize; GetChunkSlice returns nothing or exactly data[off:off+len]; a never-stored id returns nothing; no panic. Non-trivial = a lookup that hit after >=1 disk-volume rotation or a restart, or a lookup of an id that shares its key with another stored id. Distinct = distinct parameters + step list.")
+	vlib.Assume("C31: SetChunk takes a private copy, i.e. the caller may re-use its buffer once SetChunk has returned (the unchanged implementation copies; wfs.saveDataAsChunk hands it the upload input buffer); slices returned by lookups are not modified by the harness (readers in weed/filer only copy out of them). The bytes stored for one file id never change (chunks are immutable; both callers store the complete chunk); eviction policy itself (what is kept) is not checked, only that whatever is returned is right")
 	vlib.Main(m)
 }
 
@@ -150,7 +150,14 @@ func runCase(t *rapid.T, excludeAlias bool) {
 	var desc strings.Builder
 	fmt.Fprintf(&desc, "mem=%d disk=%d unit=%d sizes=%v |", p.maxEntries, p.disk, p.unit, sizes)
 	stored := map[int]bool{}
-	rotations, restarts := 0, 0
+	rotations, restarts, reused := 0, 0, 0
+	maxSize := 0
+	for _, sz := range sizes {
+		if sz > maxSize {
+			maxSize = sz
+		}
+	}
+	scratch := make([]byte, maxSize)
 	hits, misses, hitsAfter, aliasLookups, sliceHits := 0, 0, 0, 0, 0
 	// a working set keeps lookups close to recent stores so that hits are frequent
 	nSteps := rapid.IntRange(12, 50).Draw(t, "nSteps")
@@ -166,7 +173,21 @@ func runCase(t *rapid.T, excludeAlias bool) {
 		case "set":
 			i := pickFid("fid")
 			before := datSizes(dir)
-			c.SetChunk(u[i].String(), datas[i])
+			if rapid.IntRange(0, 2).Draw(t, "callerReusesBuffer") > 0 {
+				// the caller hands over a window of a buffer it re-uses as soon as SetChunk
+				// has returned (wfs.saveDataAsChunk passes the upload buffer, which for an
+				// in-memory page is the page's own backing array)
+				buf := scratch[:sizes[i]]
+				copy(buf, datas[i])
+				c.SetChunk(u[i].String(), buf)
+				for j := range buf {
+					buf[j] = 0xEE
+				}
+				reused++
+				desc.WriteString(" reuse:")
+			} else {
+				c.SetChunk(u[i].String(), datas[i])
+			}
 			if rotated(before, datSizes(dir)) {
 				rotations++
 			}
@@ -275,6 +296,9 @@ func runCase(t *rapid.T, excludeAlias bool) {
 	}
 	if sliceHits > 0 {
 		cls = append(cls, "slice-hit")
+	}
+	if reused > 0 {
+		cls = append(cls, "caller-reused-buffer")
 	}
 	if hits == 0 {
 		cls = append(cls, "no-hit")
